@@ -50,13 +50,11 @@ Theorem C18_masked_mse_closed_form : forall n d (P T : list (list R)) (mask : li
 Proof. exact masked_mse_2d. Qed.
 Print Assumptions C18_masked_mse_closed_form.
 
-(** Kept visible: on 1-D predictions (outside the documented 2-D domain) the same code
-    broadcasts to (N,N) and does not mask rows individually. *)
-Theorem C18_masked_mse_1d_refuted : exists (p t mask : list R),
-  length p = length t /\ length mask = length p /\
-  masked_mse_loss (T1 p) (T1 t) mask <> Ok (nmean (zipw (fun x m => x * m) (zipw sqerr p t) mask)).
-Proof. exact masked_mse_1d_refuted. Qed.
-Print Assumptions C18_masked_mse_1d_refuted.
+(** 1-D predictions: every sample is weighted by its own mask entry. *)
+Theorem C18_masked_mse_1d : forall (p t mask : list R), length p = length t -> length mask = length p ->
+  masked_mse_loss (T1 p) (T1 t) mask = Ok (nmean (zipw (fun x m => x * m) (zipw sqerr p t) mask)).
+Proof. exact masked_mse_1d. Qed.
+Print Assumptions C18_masked_mse_1d.
 
 Theorem C18_avg_l1_mean_abs_one : forall (x : list R) eps,
   x <> [] -> 0 < eps -> eps <= nmean (map nabs x) -> nmean (map nabs (avg_l1_norm x eps)) = 1.
